@@ -18,7 +18,7 @@ peer's session during it (peer_dropped; a fresh session is opened for the follow
 these sessions - in particular no batch with transactions the body check refuses - may cost the sender its connection.
 Every wait of the adapter on the node is bounded; an expired wait is recorded as that step's observation (a trace line no
 monitor consumes), the node is abandoned and the next behaviour starts on a fresh one."""
-import copy, json, os, time, concurrent.futures
+import copy, json, os, re, time, concurrent.futures
 import vlib
 
 LEVEL = "model_checking"
@@ -57,18 +57,57 @@ def sub(ctx, name):
     return c
 
 
-def manager(ctx, name, cfg, limit, coverage=False, shards=SHARDS, replay=True):
+ACTION_LINE = re.compile(r"^<(\w+) line \d+, col \d+ to line \d+, col \d+ of module (\w+)(?: \((\d+) (\d+) (\d+) (\d+)\))?>: (\d+):(\d+)\s*$", re.M)
+
+
+def action_counts(ctx, out):
+    """Per-action counts of TLC's LAST coverage report: {action: states generated through it}.
+    A disjunct of Next that TLC could not split down to a named action (an `\\E` over a set that is empty under the
+    configuration's constants) is reported as `<Next ... (l1 c1 l2 c2)>`: its name is read from that piece of the source."""
+    block = out[out.rfind("The coverage statistics at"):] if "The coverage statistics at" in out else ""
+    acts = {}
+    for name, module, l1, c1, l2, c2, _distinct, generated in ACTION_LINE.findall(block):
+        if name == "Init":
+            continue
+        if l1:
+            src = open(os.path.join(ctx.specdir, module + ".tla")).read().split("\n")
+            l1, c1, l2, c2 = int(l1), int(c1), int(l2), int(c2)
+            piece = " ".join(src[l1 - 1:l2])[c1 - 1:] if l1 != l2 else src[l1 - 1][c1 - 1:c2]
+            m = re.search(r":\s*(\w+)\s*\(", piece) or re.fullmatch(r"\s*(\w+)\s*", piece)
+            name = m.group(1) if m else "%s@%s:%d:%d" % (name, module, l1, c1)
+        acts[name] = acts.get(name, 0) + int(generated)
+    if not acts:
+        raise vlib.Broken("vacuity guard: no per-action coverage in TLC's output\n%s" % out[-1500:])
+    return acts
+
+
+def never_taken(ctx, cfg, out):
+    """The vacuity guard of one configuration.  Returns (action -> count); raises when an action that the configuration leaves ON was
+    never taken, or when the spec's ConfiguredOff (printed by MCSync.tla) names an action that was taken / does not exist."""
+    acts = action_counts(ctx, out)
+    m = re.search(r'^<<"ConfiguredOff", \{(.*)\}>>\s*$', out, re.M)
+    if not m:
+        raise vlib.Broken("vacuity guard: %s did not print ConfiguredOff" % cfg)
+    off = set(re.findall(r'"(\w+)"', m.group(1)))
+    zero = {a for a, n in acts.items() if n == 0}
+    if zero - off:
+        raise vlib.Broken("vacuity: actions never taken in %s although the configuration does not switch them off: %s" % (cfg, sorted(zero - off)))
+    if off - zero:
+        raise vlib.Broken("vacuity guard: ConfiguredOff of %s names %s, which TLC reports as taken / does not report at all (%s)" % (cfg, sorted(off - zero), acts))
+    return acts
+
+
+def manager(ctx, name, cfg, limit, coverage=True, shards=SHARDS, replay=True):
     dot = ctx.path("sync_%s.dot" % name)
     r = ctx.tlc_exhaustive("MCSync", cfg, timeout=900, dump=dot if replay else None, coverage=coverage, workers=8, count=False)
-    if coverage and r.get("zero_cov"):
-        raise vlib.Broken("vacuity: actions never taken in %s: %s" % (cfg, r["zero_cov"]))
+    acts = never_taken(ctx, cfg, r["out"]) if coverage else {}
     if not replay:
-        return dict(cfg=cfg, states=r["distinct"], transitions=r["generated"], behaviours_replayed=0, accepted=True, samples=[], design_side_only=True)
+        return dict(cfg=cfg, states=r["distinct"], transitions=r["generated"], behaviours_replayed=0, accepted=True, samples=[], design_side_only=True, actions=acts)
     files, summ = ctx.replay("sync", graph=dot, shards=shards, maxlen=30, limit=limit, name="sync_" + name, timeout=2400)
     ok = ctx.validate("TraceSync", "TraceSync.cfg", files, what="ProtocolManager, %s graph" % name, timeout=2400, count_behaviours=False)
     return dict(cfg=cfg, states=r["distinct"], transitions=r["generated"], nodes=summ["graph_nodes"], edges=summ["graph_edges"],
                 behaviours_total=summ["behaviours_total"], behaviours_replayed=summ["behaviours"], steps_on_real_code=summ["steps"],
-                accepted=ok, samples=summ["samples"])
+                accepted=ok, samples=summ["samples"], actions=acts)
 
 
 def txgraph(ctx, name, limit=0, shards=8):
@@ -158,10 +197,10 @@ def run(ctx):
             # every transition of the core graph (a batch that mixes executed / new / pending / refused ones, before, after and while the blocks
             # are inserted) and of the smallest box graph, seeded samples of the others
             txs = ex.submit(transactions, sub(ctx, "tx"), [("coreq", 0, 8), ("boxq", 0, 2), ("boxes", 200, 4), ("wide", 250, 8)], 48, 16)
-            five = ex.submit(manager, sub(ctx, "m2"), "five", "MCSync_five.cfg", 300, False, 16)
+            five = ex.submit(manager, sub(ctx, "m2"), "five", "MCSync_five.cfg", 300, True, 16)
             # messages with several blocks that overlap what the node holds (a seeded sample of the 3-block graph; all of it in the thorough tier)
-            batch = ex.submit(manager, sub(ctx, "m3"), "batch", "MCSync_batch.cfg", 800, False, 24)
-            results.append(manager(sub(ctx, "m1"), "quick", "MCSync_quick.cfg", 1500, False, 48))
+            batch = ex.submit(manager, sub(ctx, "m3"), "batch", "MCSync_batch.cfg", 800, True, 24)
+            results.append(manager(sub(ctx, "m1"), "quick", "MCSync_quick.cfg", 1500, True, 48))
             results.append(five.result())
             results.append(batch.result())
             results += txs.result()
@@ -175,6 +214,14 @@ def run(ctx):
             results.append(manager(sub(ctx, "m3"), "thorough", "MCSync_thorough.cfg", 8000))
         results += [j.result() for j in side]
         ctx.extra["negative_controls"] = neg.result()
+    # vacuity over the tier: every action of Sync.tla is taken in at least one of its configurations
+    taken = {}
+    for r in results:
+        for a, n in r.get("actions", {}).items():
+            taken[a] = taken.get(a, 0) + n
+    if not taken or [a for a, n in taken.items() if n == 0]:
+        raise vlib.Broken("vacuity: actions of Sync.tla taken in no configuration of this tier: %s" % sorted(a for a, n in taken.items() if n == 0))
+    ctx.extra["sync_actions_taken"] = taken
     for r in results:
         ctx.cov["states"] += r["states"]
         ctx.cov["transitions"] += r["transitions"]
